@@ -32,7 +32,7 @@ m = {
          "kind_free_text": "machine-checked proof in Lean 4 about a hand-written executable model; model tied to /repo on every run by regenerated facts and by a differential correspondence campaign"}],
     "checks": checks,
     "not_applicable": na,
-    "notes": "fix: commits in /repo (genuine defects repaired): 45ec4cf D1+D9, d9e8eb7 D2, 8fbcf60 D3, 02f5391 D4a/c, bcaf22f D4b, 9dd5ad8 D5; known findings in known_findings.json; see DESIGN.md.",
+    "notes": "fix: commits in /repo (genuine defects repaired): 45ec4cf D1+D9, d9e8eb7 D2, 8fbcf60 D3, 02f5391 D4a/c, bcaf22f D4b, 9dd5ad8 D5, 65450b5 D12, 0d71d70 D13, 9b2130c D14; known findings (D6, D7, D8, D10, D11) in known_findings.json; see DESIGN.md.",
 }
 json.dump(m, open(os.path.join(VERIF, "MANIFEST.json"), "w"), indent=1)
 print("claimed:", [c["property_id"] for c in checks])
